@@ -28,6 +28,8 @@ class Item:
     site: str = ""                         # template::macro in which the hole is written
     alts: tuple = ()                       # kind a: the alternative texts (tuple[Sym, ...])
     uid: int = 0                           # kind a: occurrences of one decision (same uid) take the same alternative
+    inst: str = ""                         # kind n: the rounds of the enclosing template loops in which the hole was written
+                                           # ("<loop>.<round>/..."): holes of one root written in one round name one document entity
 
 
 Sym = tuple  # tuple[Item, ...]
@@ -55,6 +57,8 @@ class SkelWalker:
         self.unknown_calls: dict[str, int] = {}
         self._uid = 0
         self._caller: list[Sym] = []   # texts of the enclosing `{% call %}` blocks (innermost last)
+        self._rounds: list[str] = []   # "<loop>.<round>" of the template loops being unrolled (outermost first)
+        self._loops = 0
         self._module_envs: dict[str, dict[str, Any]] = {}
 
     # ---- public --------------------------------------------------------------------------------------------------
@@ -120,27 +124,39 @@ class SkelWalker:
             else:
                 for k, p in enumerate(pieces):
                     if k and (p or k < len(pieces) - 1 or n.else_):
-                        self._sep()
+                        self._sep(line=True)
                     self.out.extend(p)
             self._merge(env, ends)
             return
         if isinstance(n, nodes.For):
             it = self.as_list(n.iter, env, tname)
+            self._loops += 1
+            loop, rnd = self._loops, 0
             if it is not None:
                 # a list the template builds itself (literal items, `map(attribute=...)`, concatenations): one round per item
                 for s, many in it[1]:
                     for _ in range((2 if len(self.stack) <= 1 else 1) if many else 1):
                         e2 = dict(env)
+                        rnd += 1
+                        self._rounds.append(f"{loop}.{rnd}")
                         if isinstance(n.target, nodes.Name):
-                            e2[n.target.name] = s
+                            e2[n.target.name] = self._stamped(s) if many else s  # (an item that stands for many: one entity per round)
                         else:
                             self._bind_target(n.target, n.iter, e2)
-                        self.block(n.body, e2, tname)
+                        try:
+                            self.block(n.body, e2, tname)
+                        finally:
+                            self._rounds.pop()
             else:
                 for _ in range(2 if len(self.stack) <= 1 else 1):
                     e2 = dict(env)
                     self._bind_target(n.target, n.iter, e2)
-                    self.block(n.body, e2, tname)
+                    rnd += 1
+                    self._rounds.append(f"{loop}.{rnd}")
+                    try:
+                        self.block(n.body, e2, tname)
+                    finally:
+                        self._rounds.pop()
             if n.else_:
                 self._sep()
                 self.block(n.else_, dict(env), tname)
@@ -290,16 +306,21 @@ class SkelWalker:
         last = text.rsplit("\n", 1)[-1]
         return len(last) - len(last.lstrip(" "))
 
-    def _sep(self) -> None:
-        """alternatives are laid out one after the other: keep their tokens apart"""
+    def _sep(self, line: bool = False) -> None:
+        """alternatives are laid out one after the other: keep their tokens apart. line: the alternatives are blocks of lines (the
+        branches of an `if` that writes lines): when one ends without its newline (`{%- else %}`, the newline follows the `if`), the
+        next one starts on a line of its own, indented like the line that was being written - two statements, not one."""
         for it in reversed(self.out):
             if it.kind == "t" and it.text:
-                if it.text.endswith("\n") or it.text.endswith(" "):
+                if it.text.endswith("\n") or (it.text.endswith(" ") and not line):
                     return
                 break
             if it.kind != "t":
                 break
-        self.out.append(Item("t", " "))
+        if line and self.out:
+            self.out.append(Item("t", "\n" + " " * self._cur_indent()))
+        else:
+            self.out.append(Item("t", " "))
 
     def _bind_target(self, target: nodes.Node, it: nodes.Node, env: dict[str, Any]) -> None:
         if isinstance(target, nodes.Name):
@@ -330,11 +351,10 @@ class SkelWalker:
             return (Item("o", e.name),)
         if isinstance(e, nodes.Getattr):
             if e.attr in NAME_ATTRS:
-                site = f"{tname}::{self.stack[-1][1] if self.stack and self.stack[-1][0] == tname else '<top>'}"
-                return (Item("n", self.root_of(e, env), frozenset(), site),)
+                return (self._name_item(self.root_of(e, env), tname),)
             return (Item("o", self.root_of(e, env)),)
         if isinstance(e, nodes.Getitem) and isinstance(e.arg, nodes.Const) and e.arg.value in NAME_ATTRS:
-            return (Item("n", f"{self.root_of(e.node, env)}.{e.arg.value}", frozenset(), self._site(tname)),)
+            return (self._name_item(f"{self.root_of(e.node, env)}.{e.arg.value}", tname),)
         if isinstance(e, nodes.Mod) and isinstance(e.left, nodes.Const) and isinstance(e.left.value, str):
             args = list(e.right.items) if isinstance(e.right, nodes.Tuple) else [e.right]
             got = self._formatted(e.left.value.split("%s"), args, env, tname)
@@ -419,9 +439,26 @@ class SkelWalker:
     def _site(self, tname: str) -> str:
         return f"{tname}::{self.stack[-1][1] if self.stack and self.stack[-1][0] == tname else '<top>'}"
 
+    def _name_item(self, root: str, tname: str) -> Item:
+        """a hole filled from a document-derived python name, written in template tname in the current loop rounds"""
+        return Item("n", root, frozenset(), self._site(tname), inst="/".join(self._rounds))
+
+    def _stamped(self, s: Sym) -> Sym:
+        """s as the item of the current round of a loop over a list the template built before the loop"""
+        here = "/".join(self._rounds)
+        out = []
+        for it in s:
+            if it.kind == "n":
+                out.append(replace(it, inst=f"{it.inst}/{here}" if it.inst else here))
+            elif it.kind == "a":
+                out.append(replace(it, alts=tuple(self._stamped(a) for a in it.alts)))
+            else:
+                out.append(it)
+        return tuple(out)
+
     def _attr_of(self, root: str, attr: str, tname: str) -> Sym:
         if attr in NAME_ATTRS:
-            return (Item("n", f"{root}.{attr}", frozenset(), self._site(tname)),)
+            return (self._name_item(f"{root}.{attr}", tname),)
         return (Item("o", f"{root}.{attr}"),)
 
     def as_list(self, e: nodes.Node, env: dict[str, Any], tname: str) -> "tuple | None":
@@ -534,8 +571,7 @@ class SkelWalker:
             if fn.attr == "to_string":
                 recv = expr_text(fn.node)
                 recv = self.root_of(fn.node, env)
-                site = f"{tname}::{self.stack[-1][1] if self.stack and self.stack[-1][0] == tname else '<top>'}"
-                return (Item("n", recv + ".python_name", frozenset(), site), Item("t", ": "), Item("o", recv + ".type", self.type_idents),
+                return (self._name_item(recv + ".python_name", tname), Item("t", ": "), Item("o", recv + ".type", self.type_idents),
                         Item("t", " = "), Item("o", recv + ".default", frozenset({"UNSET", "isoparse", "UUID"})))
             if "type_string" in fn.attr or fn.attr in ("response_type",):
                 return (Item("o", txt, self.type_idents),)
@@ -689,29 +725,32 @@ def resolve_alternatives(items: list[Item]) -> list[Item]:
     return out
 
 
-def _lines(items: list[Item]) -> tuple[list[str], list[frozenset[str]], list[tuple[str, str]]]:
+def _lines(items: list[Item]) -> tuple[list[str], list[frozenset[str]], list[tuple[str, str, str]], list[str]]:
+    """(lines, identifiers each opaque value may read, (root, site, rounds) of each name hole, expression text of each opaque value)"""
     buf: list[str] = []
     opq: list[frozenset[str]] = []
-    holes: list[tuple[str, str]] = []
+    opq_text: list[str] = []
+    holes: list[tuple[str, str, str]] = []
     for it in resolve_alternatives(items):
         if it.kind == "t":
             buf.append(it.text)
         elif it.kind == "n":
             buf.append(f"{HOLE}{len(holes)}{HOLE}")
-            holes.append((it.text, it.site))
+            holes.append((it.text, it.site, it.inst))
         else:
             buf.append(f"{OPQ}{len(opq)}{OPQ}")
             opq.append(it.idents)
-    return "".join(buf).split("\n"), opq, holes
+            opq_text.append(it.text)
+    return "".join(buf).split("\n"), opq, holes, opq_text
 
 
-def to_lines(items: list[Item]) -> tuple[list[str], list[frozenset[str]], list[tuple[str, str]]]:
+def to_lines(items: list[Item]) -> tuple[list[str], list[frozenset[str]], list[tuple[str, str, str]]]:
     """Virtual source: name holes become placeholder identifiers, opaque values an expression placeholder; a line in which
     alternatives stand is written once per alternative."""
-    lines, opq, holes = _lines(items)
+    lines, opq, holes, _texts = _lines(items)
     return [x.lstrip(VARIANT) for x in lines], opq, holes
 
 
 def scan(items: list[Item], template: str) -> Scope:
-    lines, opq, holes = _lines(items)  # (alternatives of a line keep their VARIANT mark: `scan_lines` reads and removes it)
-    return scan_lines(lines, opq, holes, template)
+    lines, opq, holes, texts = _lines(items)  # (alternatives of a line keep their VARIANT mark: `scan_lines` reads and removes it)
+    return scan_lines(lines, opq, holes, template, texts)
